@@ -3,7 +3,7 @@
 package main
 
 // C03, statement model (JsExpr/StmtModel.v, entry run_xstmt): block, var, if / else, while (also under
-// Options.WhileToFor), do-while, for(;;), throw, break / continue, labelled, expression and empty statements against
+// Options.WhileToFor), do-while, for(;;), throw, break / continue, debugger, with, try, labelled, expression and empty statements against
 // js.Parse: the String() of every statement of the program.
 
 import (
@@ -86,9 +86,23 @@ func (g *c03StmtGen) end(ts []c03Jtok) ([]c03Jtok, bool) {
 // stmt returns the tokens of one statement and whether the next token must start a new line
 func (g *c03StmtGen) stmt(depth int) ([]c03Jtok, bool) {
 	r := g.r
-	k := r.Intn(13)
-	if depth <= 0 && (k < 5 || k == 12) {
+	k := r.Intn(16)
+	if depth <= 0 && (k < 5 || k == 12 || k >= 14) {
 		k = 5 + r.Intn(7)
+	}
+	block := func() []c03Jtok {
+		n := r.Intn(3)
+		ts := []c03Jtok{g.kw(js.OpenBraceToken)}
+		nl := false
+		for i := 0; i < n; i++ {
+			s, snl := g.stmt(depth - 1)
+			if nl && len(s) > 0 {
+				s[0].lt = true
+			}
+			ts = append(ts, s...)
+			nl = snl
+		}
+		return append(ts, g.kw(js.CloseBraceToken))
 	}
 	cond := func() []c03Jtok { return c03Cat(c03TkLP, g.expr(), c03TkRP) }
 	sub := func() []c03Jtok {
@@ -151,6 +165,24 @@ func (g *c03StmtGen) stmt(depth int) ([]c03Jtok, bool) {
 		return g.end(ts)
 	case 8: // empty
 		return []c03Jtok{c03TkSemi}, false
+	case 13: // debugger
+		return g.end([]c03Jtok{g.kw(js.DebuggerToken)})
+	case 14: // with
+		return c03Cat(g.kw(js.WithToken), cond(), sub()), false
+	case 15: // try
+		ts := c03Cat(g.kw(js.TryToken), block())
+		shape := r.Intn(3)
+		if shape != 1 {
+			ts = append(ts, g.kw(js.CatchToken))
+			if r.Bool() {
+				ts = c03Cat(ts, c03TkLP, c03Jt(js.IdentifierToken, "e"), c03TkRP)
+			}
+			ts = c03Cat(ts, block())
+		}
+		if shape != 0 {
+			ts = c03Cat(ts, g.kw(js.FinallyToken), block())
+		}
+		return ts, false
 	case 12: // for ( init ; cond ; post ) body   — the initialiser is parsed with the In flag off
 		noIn := func() []c03Jtok {
 			for {
@@ -296,7 +328,7 @@ func c03StmtBraceOK(ts []c03Jtok) bool {
 			continue
 		}
 		switch ts[i-1].ty {
-		case js.CloseParenToken, js.OpenBraceToken, js.CloseBraceToken, js.SemicolonToken, js.ElseToken, js.DoToken:
+		case js.CloseParenToken, js.OpenBraceToken, js.CloseBraceToken, js.SemicolonToken, js.ElseToken, js.DoToken, js.TryToken, js.CatchToken, js.FinallyToken:
 		case js.ColonToken:
 			if i < 2 || ts[i-2].ty != js.IdentifierToken || i >= 3 && ts[i-3].ty == js.QuestionToken {
 				return false
